@@ -15,7 +15,7 @@ from __future__ import annotations
 import itertools
 
 from .core import AnalysisError
-from .objmodel import ClassModel, new_parser_state
+from .objmodel import ClassModel, model_attr, new_parser_state
 from .ordabs import ModelRaise, Obj
 from .repo import Repo
 from .triviasem import RELS
@@ -73,7 +73,7 @@ def check_fail(repo: Repo, where: str, thorough: bool = False) -> tuple[int, lis
             bad.append(("fail() raises", f"{hist}: {err}"))
             continue
         desc = "; ".join(f"fail(L{i}) at {p}, depth {d}{', force' if f else ''}{', suppressed' if s_ else ''}{'' if r is None else f', rule_name={r!r}'}" for i, (p, d, f, s_, r) in enumerate(hist))
-        got = (state.furthest_pos, dict(state.furthest_expected), dict(state.furthest_unexpected))
+        got = (model_attr(cm, state, "furthest_pos"), dict(model_attr(cm, state, "furthest_expected")), dict(model_attr(cm, state, "furthest_unexpected")))
         want = (ref.pos, ref.exp, ref.unexp)
         if got[0] != want[0]:
             bad.append(("the furthest position is not the greatest position a recorded failure had", f"{desc}: furthest_pos {got[0]}, expected {want[0]}"))
@@ -83,6 +83,6 @@ def check_fail(repo: Repo, where: str, thorough: bool = False) -> tuple[int, lis
                 bad.append(("a label is filed under the empty rule name", f"{desc}: expected {got[1]}, unexpected {got[2]}"))
             else:
                 bad.append(("labels are filed under the wrong rule, side or position", f"{desc}: expected {got[1]} / unexpected {got[2]}, reference {want[1]} / {want[2]}"))
-        elif want[0] >= 0 and [getattr(x, "name", x) for x in state.furthest_stack] != [f.name for f in ref.stack]:
-            bad.append(("the rule stack of the furthest failure is not recorded", f"{desc}: {state.furthest_stack}"))
+        elif want[0] >= 0 and [getattr(x, "name", x) for x in model_attr(cm, state, "furthest_stack")] != [f.name for f in ref.stack]:
+            bad.append(("the rule stack of the furthest failure is not recorded", f"{desc}: {model_attr(cm, state, 'furthest_stack')}"))
     return n, bad
